@@ -1,4 +1,5 @@
 import BSEModel.Turbomole
+import BSEModel.TurbomoleEcp
 import BSEModel.G94Inst
 /-! The Turbomole token model with the library's own tables (lower-case symbols, hik letters in lower case). -/
 namespace BSE.Turbomole
@@ -21,5 +22,17 @@ def realTTables {ν : Type} (isNum isInt : ν → Bool) : TTables ν where
   natStr n := (toString n).toList
   natOf := BSE.G94.natOfStr
   isInt := isInt
+
+/-- the `$ecp` section with the library's tables: symbols in lower case, the writer's letters from the hij table
+(`amint_to_char(am, hij=True)`), the reader's from the hik table (`amchar_to_int(letter)`, default) -/
+def realPTables {ν : Type} (isNum isInt : ν → Bool) : PTables ν where
+  symOf z := (symFromZ z).getD []
+  zOf := zFromSym
+  natStr n := (toString n).toList
+  natOf := BSE.G94.natOfStr
+  amLetter l := [l].filterMap (amChar true)
+  amOfLetter := amOfHik
+  isInt := isInt
+  isNum := isNum
 
 end BSE.Turbomole
